@@ -16,6 +16,7 @@ const (
 	sigError     = 3
 	sigLookahead = 4
 	sigPartition = 5
+	sigPinned    = 6
 )
 
 func computeRuleClasses(t *Tables, g *Grammar) []int {
@@ -56,11 +57,52 @@ func computeRuleClasses(t *Tables, g *Grammar) []int {
 	return ruleClass
 }
 
-func partitionStatesByAction(t *Tables, ruleClass []int, numStates int) ([]int, *container.IntSliceSet) {
+func partitionStatesByAction(t *Tables, g *Grammar, ruleClass []int, numStates int) ([]int, *container.IntSliceSet) {
+	// Some states are addressed from outside the tables and must keep their identity:
+	//  - the entry functions start in state #i for input #i, so two start states cannot be merged
+	//    even if they are equivalent (inputs that reach each other through their first symbols);
+	//  - the parser stops as soon as it enters the final state of a no-eoi input, whatever that
+	//    state could do next. Unless it is a dead end anyway, it cannot be merged with other states
+	//    (e.g. with the start state of a left-recursive input).
+	//  - the parser for input #i must fail when it runs into the final state of another input
+	//    (possible when input #i can start with the other input's nonterminal), so a final state
+	//    that is reachable from a foreign start state cannot be merged with other final states.
+	pinned := make(map[int]bool)
+	for i, inp := range g.Inputs {
+		pinned[i] = true
+		if s := t.FinalStates[i]; !inp.Eoi && t.Action[s] != -2 {
+			pinned[s] = true
+		}
+	}
+	next := make([][]int, numStates)
+	for i := 0; i+1 < len(t.FromTo); i += 2 {
+		next[t.FromTo[i]] = append(next[t.FromTo[i]], t.FromTo[i+1])
+	}
+	for i := range g.Inputs {
+		seen := make([]bool, numStates)
+		seen[i] = true
+		for queue := []int{i}; len(queue) > 0; queue = queue[1:] {
+			for _, to := range next[queue[0]] {
+				if !seen[to] {
+					seen[to] = true
+					queue = append(queue, to)
+				}
+			}
+		}
+		for j, s := range t.FinalStates {
+			if j != i && s != t.FinalStates[i] && seen[s] {
+				pinned[s] = true
+			}
+		}
+	}
+
 	// Initial partitions based on reductions and actions
 	// Signature of a state:
 	//    Action[s], plus LALR entries substituting rule -> ruleClass
 	stateSignature := func(s int) []int {
+		if pinned[s] {
+			return []int{sigPinned, s}
+		}
 		act := t.Action[s]
 		if act >= 0 {
 			return []int{sigReduce, ruleClass[act]}
@@ -159,7 +201,7 @@ func refinePartitions(partition []int, partitions *container.IntSliceSet, t *Tab
 func minimize(t *Tables, g *Grammar) {
 	numStates := t.NumStates
 	ruleClass := computeRuleClasses(t, g)
-	partition, partitions := partitionStatesByAction(t, ruleClass, numStates)
+	partition, partitions := partitionStatesByAction(t, g, ruleClass, numStates)
 	partition, partitions = refinePartitions(partition, partitions, t)
 
 	if partitions.Len() == numStates {
